@@ -177,7 +177,25 @@ fn ints(v: &[i64]) -> String {
 }
 
 fn gen_bounds(r: &mut Rng) -> Vec<i64> {
-    let n = r.range(1, 5);
+    gen_bounds_n(r, 5)
+}
+
+/// wide shapes: in half of the cases whole numbers (`1`, `5`, `250` — what bounds look like in practice, and where
+/// `Display`, `Debug` and `{:.1}` of an f64 differ) or multiples of 1/4
+fn gen_bounds_wide(r: &mut Rng, max: usize) -> Vec<i64> {
+    let mut v = gen_bounds_n(r, max);
+    if r.chance(1, 2) {
+        let unit: i64 = if r.chance(2, 3) { 1024 } else { 256 };
+        for x in v.iter_mut() {
+            *x = x.div_euclid(unit) * unit;
+        }
+        v.dedup();
+    }
+    v
+}
+
+fn gen_bounds_n(r: &mut Rng, max: usize) -> Vec<i64> {
+    let n = r.range(1, max);
     let mut v: Vec<i64> = vec![];
     let mut cur: i64 = r.range(0, 4096) as i64 - 2048;
     for _ in 0..n {
@@ -213,19 +231,52 @@ fn pick_lval(r: &mut Rng, fl: Flavour) -> String {
     }
 }
 
+/// Upper limits of the shape of a session (how many of each thing the generator may make). `Shape::standard` is
+/// what `session` has always used (same draws, so the streams of C07 / C15 are unchanged); C08 also runs wide sessions.
+#[derive(Clone, Copy)]
+pub struct Shape {
+    pub max_globals: usize,
+    pub max_over: usize,
+    pub max_metrics: usize,
+    pub max_series: usize,
+    pub max_own_labels: usize,
+    pub max_bounds: usize,
+    /// repeated `add_global_label` / repeated matcher also outside C07; `le` texts compared as text
+    pub wide: bool,
+}
+
+impl Shape {
+    pub fn standard(fl: Flavour) -> Shape {
+        Shape {
+            max_globals: 2,
+            max_over: if fl == Flavour::Buckets { 3 } else { 1 },
+            max_metrics: 5,
+            max_series: 3,
+            max_own_labels: 3,
+            max_bounds: 5,
+            wide: false,
+        }
+    }
+}
+
 /// One session. Returns nothing; everything goes to `out`.
 pub fn session(r: &mut Rng, out: &mut Out, fl: Flavour) {
+    session_shaped(r, out, fl, &Shape::standard(fl))
+}
+
+pub fn session_shaped(r: &mut Rng, out: &mut Out, fl: Flavour, shape: &Shape) {
     // ---- configuration
     let v7 = fl == Flavour::Values;
+    let rep = v7 || shape.wide;
     let mut globals: Vec<(String, String)> = vec![];
-    for _ in 0..r.below(3) {
+    for _ in 0..r.below(shape.max_globals + 1) {
         let k = pick_lname(r, fl);
         let sk = own_sanitize(&k, false);
         if sk != "le" && sk != "quantile" && !globals.iter().any(|(g, _)| own_sanitize(g, false) == sk) {
             globals.push((k, pick_lval(r, fl)));
         }
     }
-    if v7 && !globals.is_empty() && r.chance(1, 3) {
+    if rep && !globals.is_empty() && r.chance(1, 3) {
         // `add_global_label` with a name given before: the label keeps its place and takes the last value
         // (`globals` is the list of builder calls as made; the model folds it the same way)
         for _ in 0..r.range(1, 2) {
@@ -234,10 +285,10 @@ pub fn session(r: &mut Rng, out: &mut Out, fl: Flavour) {
         }
         out.count("cfg.global_label_repeated");
     }
-    let buckets = if r.chance(1, 3) { Some(gen_bounds(r)) } else { None };
-    let nover = if fl == Flavour::Buckets { r.below(4) } else { r.below(2) };
+    let buckets = if r.chance(1, 3) { Some((if shape.wide { gen_bounds_wide(r, shape.max_bounds) } else { gen_bounds_n(r, shape.max_bounds) })) } else { None };
+    let nover = r.below(shape.max_over + 1);
     // ---- metrics
-    let nmetrics = r.range(1, 5);
+    let nmetrics = r.range(1, shape.max_metrics);
     let mut names: Vec<(String, String)> = vec![]; // (raw, sanitised)
     let mut tries = 0;
     while names.len() < nmetrics && tries < 50 {
@@ -265,15 +316,15 @@ pub fn session(r: &mut Rng, out: &mut Out, fl: Flavour) {
         // HashMap<Matcher, _>: the same matcher twice would just overwrite; keep them distinct (after sanitising)
         let key = (kind, own_sanitize(&pat, true));
         if !pat.is_empty() && !overrides.iter().any(|(k, p, _)| (*k, own_sanitize(p, true)) == key) {
-            overrides.push((kind, pat, gen_bounds(r)));
+            overrides.push((kind, pat, (if shape.wide { gen_bounds_wide(r, shape.max_bounds) } else { gen_bounds_n(r, shape.max_bounds) })));
         }
     }
-    if v7 && !overrides.is_empty() && r.chance(1, 3) {
+    if rep && !overrides.is_empty() && r.chance(1, 3) {
         // the same matcher again (`HashMap::insert`: the later bounds replace the earlier ones), also through a
         // different spelling with the same sanitised form
         let (k, p, _) = overrides[r.below(overrides.len())].clone();
         let p2 = if r.chance(1, 2) { p.replace('.', "_").replace('-', "_") } else { p };
-        overrides.push((k, p2, gen_bounds(r)));
+        overrides.push((k, p2, (if shape.wide { gen_bounds_wide(r, shape.max_bounds) } else { gen_bounds_n(r, shape.max_bounds) })));
         out.count("cfg.matcher_repeated");
     }
     let mut quantiles = if r.chance(1, 4) { Some(vec![0.0, 0.25, 1.0]) } else { None };
@@ -327,13 +378,22 @@ pub fn session(r: &mut Rng, out: &mut Out, fl: Flavour) {
         cfg.buckets.is_some(),
         cfg.overrides.len()
     ));
+    if shape.wide {
+        let b = |n: usize| match n { 0 => "0", 1..=3 => "1-3", 4..=5 => "4-5", 6..=9 => "6-9", _ => "10+" };
+        out.count(&format!("wide.overrides={}", b(cfg.overrides.len())));
+        out.count(&format!("wide.global_calls={}", b(cfg.globals.len())));
+        out.count(&format!(
+            "wide.max_bounds={}",
+            b(cfg.overrides.iter().map(|o| o.2.len()).chain(cfg.buckets.iter().map(|x| x.len())).max().unwrap_or(0))
+        ));
+    }
 
     // ---- series
     let mut series: Vec<Series> = vec![];
     let mut seen_ids: HashSet<String> = HashSet::new();
     for (raw, _) in &names {
         let kind = r.below(3) as u8;
-        for _ in 0..r.range(1, 3) {
+        for _ in 0..r.range(1, shape.max_series) {
             let mut labels: Vec<(String, String)> = vec![];
             // C07, histograms: a second registry key that renders to the SAME series as the previous one (a label
             // name spelt differently with the same sanitised form, or simply the same key again): the exporter folds
@@ -349,7 +409,7 @@ pub fn session(r: &mut Rng, out: &mut Out, fl: Flavour) {
                 }
                 out.count("series.colliding_histogram_keys");
             }
-            for _ in 0..(if collide { 0 } else { r.below(4) }) {
+            for _ in 0..(if collide { 0 } else { r.below(shape.max_own_labels + 1) }) {
                 // sometimes override a global label by using its exact name
                 let k = if !cfg.globals.is_empty() && r.chance(1, 4) {
                     cfg.globals[r.below(cfg.globals.len())].0.clone()
@@ -385,6 +445,17 @@ pub fn session(r: &mut Rng, out: &mut Out, fl: Flavour) {
                     h_vals: vec![],
                 });
             }
+        }
+    }
+    if shape.wide {
+        let b = |n: usize| match n { 0 => "0", 1..=3 => "1-3", 4..=5 => "4-5", 6..=9 => "6-9", _ => "10+" };
+        let mut per: BTreeMap<&str, usize> = BTreeMap::new();
+        for s in &series {
+            *per.entry(s.name.as_str()).or_insert(0) += 1;
+            out.count(&format!("wide.labels_per_series(own+global)={}", b(s.labels.len() + cfg.globals.len())));
+        }
+        for (_, n) in per {
+            out.count(&format!("wide.series_per_family={}", b(n)));
         }
     }
     // ---- history
@@ -552,6 +623,9 @@ pub fn session(r: &mut Rng, out: &mut Out, fl: Flavour) {
                 out.op("prom render", &canonical(&text));
                 out.count("op.render");
                 oracle_render(out, &cfg, &series, &described, &text);
+                if fl == Flavour::Strings {
+                    crate::c08::number_text_oracle(out, &cfg, &qtexts, &text);
+                }
                 if r.chance(1, 3) || last {
                     // rendering twice with no update in between yields the same set of lines
                     let text2 = handle.render();
